@@ -12,17 +12,19 @@ impl<'a> PrettyPrinter<'a> {
         ctx: Context,
         parenthesized: Parenthesized<'a>,
     ) -> ArenaDoc<'a> {
-        let ctx = ctx.with_mode(Mode::CodeCont);
+        // Only these parentheses are glued to what follows, nothing inside them is.
+        let glued = ctx.glued;
+        let ctx = ctx.with_mode(Mode::CodeCont).with_glued(false);
 
         if let Pattern::Parenthesized(paren) = parenthesized.pattern() {
             if !has_comment_children(parenthesized.to_untyped()) {
                 // Remove a layer of paren if no comment inside.
-                return self.convert_parenthesized(ctx, paren);
+                return self.convert_parenthesized(ctx.with_glued(glued), paren);
             }
         }
 
         // Treat is as a list with a single item.
-        self.convert_parenthesized_impl(ctx, parenthesized)
+        self.convert_parenthesized_impl(ctx, parenthesized, glued)
     }
 
     /// Convert an expression with optional parentheses.
